@@ -106,6 +106,42 @@ pub fn run(tier: Tier) -> i32 {
                     }
                 }
             }
+            // the same pairs when the first number does not open the builder: after a spoken zero ("zero A B" — the zero
+            // is a leading zero of A, C16), and with a hundred in front of A (the first number is 100 + A)
+            for a in lo..hi {
+                for b in 0..100u64 {
+                    let mut cat = nm[a as usize].clone();
+                    cat.extend(nm[b as usize].iter().cloned());
+                    let fused: Vec<u64> = all_nm.iter().filter(|(c, m)| *c < 100 && *m == cat).map(|(c, _)| *c).collect();
+                    // zero prefix
+                    {
+                        acc.states += 1;
+                        acc.traces += 1;
+                        let s = format!("{} {} {}", l.zero(), sp[a as usize], sp[b as usize]);
+                        let got = guard(|| replace_numbers_in_text(&s, &lang, 0.0)).unwrap_or_else(|p| p);
+                        let mut allowed: Vec<String> = vec![format!("0{a} {b}")];
+                        allowed.extend(fused.iter().map(|c| format!("0{c}")));
+                        if a == 0 {
+                            allowed.push(format!("00{b}"));
+                        }
+                        if !allowed.contains(&got) {
+                            ctx.report(acc, Violation { lang: l.code().into(), entry: "replace_text".into(), input: s, threshold: Some(0.0), clause: "two complete numbers below 100 after a spoken zero: both numbers in order (the zero leading the first), or the single number spelled by exactly those words".into(), expected: allowed.join(" | "), observed: got });
+                        }
+                    }
+                    // a hundred in front of the first number
+                    if a >= 1 {
+                        acc.states += 1;
+                        acc.traces += 1;
+                        let s = format!("{} {}", spell::spell(l, 100 + a, Var::default()), sp[b as usize]);
+                        let got = guard(|| replace_numbers_in_text(&s, &lang, 0.0)).unwrap_or_else(|p| p);
+                        let mut allowed: Vec<String> = vec![format!("{} {b}", 100 + a)];
+                        allowed.extend(fused.iter().map(|c| format!("{}", 100 + c)));
+                        if !allowed.contains(&got) {
+                            ctx.report(acc, Violation { lang: l.code().into(), entry: "replace_text".into(), input: s, threshold: Some(0.0), clause: "a number 100 + a (0 < a < 100) followed by a complete number below 100: both numbers in order, or 100 + the single number spelled by the words of a and b".into(), expected: allowed.join(" | "), observed: got });
+                        }
+                    }
+                }
+            }
             // inflected / alias forms: every vocabulary word that validates on its own to a plain number b < 100 but is not
             // the standard spelling of b (plurals, aliases) as the SECOND number: it may fuse with a no more than b's
             // standard spelling may
